@@ -113,6 +113,32 @@ def run(tier, seed):
                     t.skipped += 1
                     continue
                 judge(name, lst, out)
+    # anticipated problems keep their specific class: names that are not in scope (also indexed names with braces, also when a differently-cased name exists)
+    cexc = rtcheck.real_module('mitxgraders/helpers/calc/exceptions.py')
+    gi = fgm.FormulaGrader(answers='T_{1} + x', variables=['T_{1}', 'x', 'a_{b}^{c}'], user_functions={'f_{1}': lambda z: z, 'G': lambda z: z})
+    for inp, want in (('t_{1} + x', 'UndefinedVariable'), ('T_{2} + x', 'UndefinedVariable'), ('T_{1} + X', 'UndefinedVariable'), ('A_{b}^{c} + x', 'UndefinedVariable'),
+                      ('F_{1}(x)', 'UndefinedFunction'), ('g(x)', 'UndefinedFunction'), ('x(2)', 'UndefinedFunction'), ('q + T_{1}', 'UndefinedVariable')):
+        out = outcome(gi, inp)
+        got = type(out[1]).__name__ if out[0] in ('mitx', 'foreign') else out[0]
+        ok = got == want and '<br/>' not in str(out[1]).replace('<br/>\n', '') and inp.split('(')[0].split(' ')[0] in str(out[1])
+        (t.ok if got == want else t.fail)('specific error class', inp, *([] if got == want else [
+            'FormulaGrader with indexed names on %r: %s (%s), expected %s' % (inp, got, str(out[1])[:120], want)]))
+    # ... and the anticipated array problems keep the MathArray error family (never the generic 'Could not check input'), or -- with
+    # suppress_matrix_messages -- are graded as incorrect without any error
+    mgm = rtcheck.real_module('mitxgraders/formulagrader/matrixgrader.py')
+    for sup in (False, True):
+        gm = mgm.MatrixGrader(answers='[[1, 2], [3, 4]]', max_array_dim=2, suppress_matrix_messages=sup)
+        for inp in ('[[1, 2], [3, 4]]^i', '[[1, 2], [3, 4]]^(1+i)', '[[1, 2], [3, 4]]^(2+0*i)', '[[1, 2], [3, 4]]^0.5', '[[1, 2], [3, 4]]^[1, 2]', '[1, 2]^2', '[[1, 2, 3], [4, 5, 6]]^2',
+                    '[[1, 2], [3, 4]] + 1', '[[1, 2], [3, 4]]*[1, 2, 3]', '2/[[1, 2], [3, 4]]', '[[1, 2], [2, 4]]^-1'):
+            out = outcome(gm, inp)
+            if sup:
+                ok = out[0] == 'returned' and out[1]['ok'] is False
+                want = 'an incorrect result without error'
+            else:
+                ok = out[0] == 'mitx' and isinstance(out[1], cexc.MathArrayError) or (inp.endswith('(2+0*i)') and out[0] == 'returned')
+                want = 'an error of the MathArrayError family'
+            (t.ok if ok else t.fail)('specific error class (arrays)', (sup, inp), *([] if ok else [
+                'MatrixGrader(suppress_matrix_messages=%s) on %r: %s %s, expected %s' % (sup, inp, out[0], (type(out[1]).__name__ + ': ' + str(out[1])[:100]) if out[0] != 'returned' else out[1], want)]))
     # non-text and wrongly nested input objects: ConfigError, never graded
     bad_single = [5, 5.0, None, b'cat', ('c', 'a', 't'), {'a': 1}, ['cat'], [1], [['cat']], object()]
     bad_multi = ['cat', 5, None, [1, 'a'], ['a', None], ('a', 'b'), [['a'], 'b'], {'a': 'b'}]
